@@ -869,6 +869,8 @@ struct sslSec
     unsigned char tls13VerifyData[MAX_TLS_1_3_HASH_SIZE];
 
     unsigned char *tls13CvSig;
+    unsigned char *tls13NstMsg; /* NewSessionTicket body kept across an SSL_FULL retry */
+    psSize_t tls13NstMsgLen;
     psSize_t tls13CvSigLen;
     uint16_t tls13CvSigAlg;
     uint16_t tls13PeerCvSigAlg;
